@@ -1,8 +1,10 @@
 (* Props/C20.v — shutdown stops accepting but not answering; idle workers are reclaimed.
-   Statements only; proofs are in Conc/TaskPool.v. *)
+   Statements only; proofs are in Conc/TaskPool.v, Conc/TaskPoolIdle.v (pool part) and
+   Conc/Shutdown.v (accept loop and Server::drop). *)
 From Coq Require Import List Arith Lia.
 Import ListNotations.
-From TH Require Import Conc.TaskPool.
+From TH Require Import Conc.TaskPool Conc.TaskPoolFacts Conc.TaskPoolIdle.
+From TH Require Conc.Shutdown.
 
 (* at most MIN_THREADS workers ever wait without a deadline (before and after the pool is dropped):
    every other idle worker is in a timed wait and retires when it expires *)
@@ -13,3 +15,275 @@ Theorem c20_untimed_waiters_le_min :
     count task (is_untimed task) (ws task s) <= MIN.
 Proof. exact untimed_waiters_le_min. Qed.
 Print Assumptions c20_untimed_waiters_le_min.
+
+(* ================= pool part (proofs: Conc/TaskPoolIdle.v) ================= *)
+
+(* a timed waiter that is not notified: from its deadline on Timeout is enabled, the worker resumes
+   with the queue empty, decides to return and exits; the Exit guard is the model's (before PoolDrop
+   always; after it: the poisoned counter has not been counted down to MIN + 1) *)
+Theorem c20_timed_waiter_exits :
+  forall (task : Type) (MIN IDLE BIG : nat), MIN < BIG ->
+  forall (fixed : bool) (s : st task) (w d : nat),
+    nth_error (ws task s) w = Some (Blocked task true d) -> d <= now task s -> todo task s = [] ->
+    (dropped task s = false \/ S MIN < active task s) ->
+    exists s1 s2 s3 : st task,
+      step task MIN IDLE BIG fixed s (Timeout task w) = Some s1 /\ nth_error (ws task s1) w = Some (Woken task false) /\
+      step task MIN IDLE BIG fixed s1 (Resume task w) = Some s2 /\ nth_error (ws task s2) w = Some (Exiting task) /\
+      step task MIN IDLE BIG fixed s2 (Exit task w) = Some s3 /\ nth_error (ws task s3) w = Some (Exited task) /\
+      ws task s3 = upd (ws task s) w (Exited task) /\ active task s3 = active task s - 1 /\
+      waiting task s3 = waiting task s - 1 /\ todo task s3 = [] /\ now task s3 = now task s /\
+      dropped task s3 = dropped task s.
+Proof. exact timed_waiter_exits. Qed.
+Print Assumptions c20_timed_waiter_exits.
+
+(* ... and not earlier: before the deadline the timeout cannot fire; an untimed waiter never times out *)
+Theorem c20_timeout_not_before_deadline :
+  forall (task : Type) (MIN IDLE BIG : nat), MIN < BIG ->
+  forall (fixed : bool) (s : st task) (w d : nat),
+    nth_error (ws task s) w = Some (Blocked task true d) -> now task s < d ->
+    step task MIN IDLE BIG fixed s (Timeout task w) = None.
+Proof. exact timeout_not_before_deadline. Qed.
+Print Assumptions c20_timeout_not_before_deadline.
+
+(* counting: in every reachable state at most MIN idle workers have no deadline, none after PoolDrop;
+   all other idle workers are timed, and every deadline is at most IDLE after the present (it was set
+   to `now + IDLE` when the worker went idle) *)
+Theorem c20_idle_workers_beyond_min_are_timed :
+  forall (task : Type) (MIN IDLE BIG : nat), MIN < BIG ->
+  forall (ls : list (label task)) (s : st task),
+    run task MIN IDLE BIG true (init task MIN) ls = Some s ->
+    count task (is_untimed task) (ws task s) <= MIN /\
+    (dropped task s = true -> count task (is_untimed task) (ws task s) = 0) /\
+    count task (is_blocked task) (ws task s) =
+      count task (is_untimed task) (ws task s) + count task (is_timed task) (ws task s) /\
+    (forall w b d, nth_error (ws task s) w = Some (Blocked task b d) -> d <= now task s + IDLE).
+Proof. exact idle_beyond_min_are_timed. Qed.
+Print Assumptions c20_idle_workers_beyond_min_are_timed.
+
+(* the thread count returns to the baseline: from every reachable state with nothing queued, nothing
+   running and no task held by a new thread, a schedule without Dispatch / TaskDone / Spurious / PoolDrop
+   (the moving workers settle: Start, Lock, Resume; ONE `Tick IDLE`; Timeout, Resume, Exit) leads to a
+   state in which every thread has exited or waits without deadline: at most MIN threads are alive
+   (`is_alive`: not Exited, i.e. also counting threads created but not yet registered), none after
+   PoolDrop. `exit_room` is vacuous before PoolDrop; after it, it is the model's standing assumption
+   (TaskPool.v:94) that the poisoned counter 999_999_999 is not counted down to MIN + 1. *)
+Theorem c20_threads_return :
+  forall (task : Type) (MIN IDLE BIG : nat), MIN < BIG ->
+  forall (ls0 : list (label task)) (s : st task),
+    run task MIN IDLE BIG true (init task MIN) ls0 = Some s ->
+    todo task s = [] -> count task (is_running task) (ws task s) = 0 ->
+    count task (is_holding task) (ws task s) = 0 -> exit_room task MIN s ->
+    exists (ls : list (label task)) (s' : st task),
+      only_quiet_steps task ls /\ run task MIN IDLE BIG true s ls = Some s' /\
+      now task s' = now task s + IDLE /\
+      count task (is_alive task) (ws task s') <= MIN /\
+      (dropped task s = true -> count task (is_alive task) (ws task s') = 0) /\
+      Forall (fun r => r = Exited task \/ exists d, r = Blocked task false d) (ws task s').
+Proof. exact threads_return_reachable. Qed.
+Print Assumptions c20_threads_return.
+
+(* when every worker is already idle (none is being created or stands at the lock) the schedule consists
+   of Tick / Timeout / Resume / Exit steps only: time passing, timeouts, and the workers' own exits *)
+Theorem c20_threads_return_all_idle :
+  forall (task : Type) (MIN IDLE BIG : nat), MIN < BIG ->
+  forall (ls0 : list (label task)) (s : st task),
+    run task MIN IDLE BIG true (init task MIN) ls0 = Some s ->
+    todo task s = [] -> count task (is_running task) (ws task s) = 0 ->
+    count task (is_holding task) (ws task s) = 0 ->
+    count task (is_fresh task) (ws task s) = 0 -> count task (is_atlock task) (ws task s) = 0 ->
+    exit_room task MIN s ->
+    exists (ls : list (label task)) (s' : st task),
+      only_timer_steps task ls /\ run task MIN IDLE BIG true s ls = Some s' /\
+      now task s' = now task s + IDLE /\
+      count task (is_alive task) (ws task s') <= MIN /\
+      (dropped task s = true -> count task (is_alive task) (ws task s') = 0) /\
+      Forall (fun r => r = Exited task \/ exists d, r = Blocked task false d) (ws task s').
+Proof. exact threads_return_idle_reachable. Qed.
+Print Assumptions c20_threads_return_all_idle.
+
+(* exit_room: free before the drop; established by the drop when fewer than BIG - MIN threads are
+   live; preserved by every later step *)
+Theorem c20_exit_room :
+  forall (task : Type) (MIN IDLE BIG : nat), MIN < BIG ->
+  (forall s : st task, dropped task s = false -> exit_room task MIN s) /\
+  (forall s s' : st task, dropped task s = false -> count task (is_live task) (ws task s) + MIN < BIG ->
+     step task MIN IDLE BIG true s (PoolDrop task) = Some s' -> exit_room task MIN s') /\
+  (forall (s : st task) (l : label task) (s' : st task), l <> PoolDrop task -> dropped task s = true ->
+     exit_room task MIN s -> step task MIN IDLE BIG true s l = Some s' -> exit_room task MIN s').
+Proof.
+  intros task MIN IDLE BIG HB. split; [exact (exit_room_before_drop task MIN)|].
+  split; [exact (exit_room_at_drop task MIN IDLE BIG)|exact (exit_room_step task MIN IDLE BIG HB)].
+Qed.
+Print Assumptions c20_exit_room.
+
+(* dropping the pool leaves queued, running and not yet started tasks alone: it only wakes waiters *)
+Theorem c20_pooldrop_keeps_tasks :
+  forall (task : Type) (MIN IDLE BIG : nat) (fixed : bool) (s s' : st task),
+    step task MIN IDLE BIG fixed s (PoolDrop task) = Some s' ->
+    todo task s' = todo task s /\ started task s' = started task s /\
+    (forall w tk, nth_error (ws task s) w = Some (Running task tk) -> nth_error (ws task s') w = Some (Running task tk)) /\
+    (forall w f, nth_error (ws task s) w = Some (Spawned task f) -> nth_error (ws task s') w = Some (Spawned task f)).
+Proof. exact pooldrop_keeps_tasks. Qed.
+Print Assumptions c20_pooldrop_keeps_tasks.
+
+(* ---- non-vacuity (MIN = 4, IDLE = 5, BIG = 99): a burst of five connections on four idle workers,
+   all five end, all five workers go idle while the thread counter is 5 > MIN: five timed waiters ---- *)
+Definition c20_burst_idle : list (label nat) :=
+  [Start nat 0; Start nat 1; Start nat 2; Start nat 3; Lock nat 0; Lock nat 1; Lock nat 2; Lock nat 3;
+   Dispatch nat 1 (Some 0); Dispatch nat 2 (Some 1); Dispatch nat 3 (Some 2); Dispatch nat 4 (Some 3); Dispatch nat 5 None;
+   Start nat 4; Resume nat 0; Resume nat 1; Resume nat 2; Resume nat 3;
+   TaskDone nat 0; TaskDone nat 1; TaskDone nat 2; TaskDone nat 3; TaskDone nat 4;
+   Lock nat 0; Lock nat 1; Lock nat 2; Lock nat 3; Lock nat 4].
+
+Example c20_example_idle_state :
+  match run nat 4 5 99 true (init nat 4) c20_burst_idle with
+  | Some s => todo nat s = [] /\ dropped nat s = false /\ now nat s = 0 /\ active nat s = 5 /\
+              nth_error (ws nat s) 4 = Some (Blocked nat true 5) /\
+              count nat (is_alive nat) (ws nat s) = 5 /\ count nat (is_timed nat) (ws nat s) = 5 /\
+              count nat (is_running nat) (ws nat s) = 0 /\ count nat (is_holding nat) (ws nat s) = 0 /\
+              step nat 4 5 99 true s (Timeout nat 4) = None
+  | None => False
+  end.
+Proof. vm_compute. repeat split; reflexivity. Qed.
+
+(* hypotheses of c20_timed_waiter_exits after the idle period, and its conclusion observed *)
+Example c20_example_timed_waiter :
+  match run nat 4 5 99 true (init nat 4) (c20_burst_idle ++ [Tick nat 5]) with
+  | Some s => nth_error (ws nat s) 4 = Some (Blocked nat true 5) /\ (5 <=? now nat s) = true /\ todo nat s = [] /\
+              dropped nat s = false /\
+              match run nat 4 5 99 true s [Timeout nat 4; Resume nat 4; Exit nat 4] with
+              | Some s3 => nth_error (ws nat s3) 4 = Some (Exited nat) /\ count nat (is_alive nat) (ws nat s3) = 4 /\ active nat s3 = 4
+              | None => False end
+  | None => False
+  end.
+Proof. vm_compute. repeat split; reflexivity. Qed.
+
+(* the hypotheses of c20_threads_return(_all_idle) hold in that state (5 threads alive > MIN), and a
+   timer-only schedule brings the count down. NOTE: all five workers went idle while the thread counter
+   was above MIN, so all five wait with a deadline and all five exit: the pool falls to 0 threads,
+   below MIN_THREADS (the next dispatch creates a thread again); "baseline" is an upper bound *)
+Example c20_example_threads_return :
+  let sched := [Tick nat 5; Timeout nat 0; Timeout nat 1; Timeout nat 2; Timeout nat 3; Timeout nat 4;
+                Resume nat 0; Resume nat 1; Resume nat 2; Resume nat 3; Resume nat 4;
+                Exit nat 0; Exit nat 1; Exit nat 2; Exit nat 3; Exit nat 4] in
+  forallb (is_timer_step nat) sched = true /\
+  match run nat 4 5 99 true (init nat 4) c20_burst_idle with
+  | Some s => count nat (is_fresh nat) (ws nat s) = 0 /\ count nat (is_atlock nat) (ws nat s) = 0 /\
+              exit_room nat 4 s /\
+              match run nat 4 5 99 true s sched with
+              | Some s' => count nat (is_alive nat) (ws nat s') = 0 /\ now nat s' = 5
+              | None => False end
+  | None => False
+  end.
+Proof. vm_compute. repeat split; try reflexivity. intros H; discriminate H. Qed.
+
+(* exit_room after a drop in that state: 5 live threads + MIN < 99; and a quiet schedule after the
+   drop (all are woken, wait again with a deadline, time out, exit) ends with no thread alive *)
+Example c20_example_exit_room_after_drop :
+  match run nat 4 5 99 true (init nat 4) (c20_burst_idle ++ [PoolDrop nat]) with
+  | Some s => exit_room nat 4 s /\ dropped nat s = true /\ todo nat s = [] /\
+              count nat (is_running nat) (ws nat s) = 0 /\ count nat (is_holding nat) (ws nat s) = 0
+  | None => False
+  end.
+Proof. vm_compute. repeat split; try reflexivity. intros _. lia. Qed.
+Example c20_example_quiet_schedule_after_drop :
+  let sched := [Resume nat 0; Resume nat 1; Resume nat 2; Resume nat 3; Resume nat 4; Tick nat 5;
+                Timeout nat 0; Timeout nat 1; Timeout nat 2; Timeout nat 3; Timeout nat 4;
+                Resume nat 0; Resume nat 1; Resume nat 2; Resume nat 3; Resume nat 4;
+                Exit nat 0; Exit nat 1; Exit nat 2; Exit nat 3; Exit nat 4] in
+  forallb (is_quiet_step nat) sched = true /\
+  match run nat 4 5 99 true (init nat 4) (c20_burst_idle ++ [PoolDrop nat] ++ sched) with
+  | Some s => count nat (is_alive nat) (ws nat s) = 0 /\ now nat s = 5
+  | None => False
+  end.
+Proof. vm_compute. repeat split; reflexivity. Qed.
+
+(* ================= shutdown part (model and proofs: Conc/Shutdown.v) ================= *)
+
+(* after Server::drop at most one more accept() returns (client or self-connection), along every
+   label sequence; and once the loop has exited the listener stays closed, nothing more is accepted
+   and every later connection attempt is refused *)
+Theorem c20_accept_stops :
+  forall (s0 s1 : Shutdown.st) (ls : list Shutdown.label) (s2 : Shutdown.st),
+    Shutdown.step s0 Shutdown.ServerDrop = Some s1 -> Shutdown.run s1 ls = Some s2 ->
+    Shutdown.nb Shutdown.is_accept ls <= 1 /\ Shutdown.nb Shutdown.is_accept_client ls <= 1 /\
+    (Shutdown.listening s2 = false ->
+     forall (ls' : list Shutdown.label) (s3 : Shutdown.st), Shutdown.run s2 ls' = Some s3 ->
+       Shutdown.listening s3 = false /\ Shutdown.accepted s3 = Shutdown.accepted s2 /\
+       Shutdown.refused s3 = Shutdown.refused s2 ++ Shutdown.connects ls').
+Proof.
+  intros s0 s1 ls s2 H R. destruct (Shutdown.accept_stops s0 s1 ls s2 H R) as [A B]. split; [exact A|]. split; [exact B|].
+  intros Hl ls' s3 R'. destruct (Shutdown.closed_listener_refuses ls' s2 s3 Hl R') as (L & Ac & _ & Rf). auto.
+Qed.
+Print Assumptions c20_accept_stops.
+
+(* the loop cannot stay blocked in accept(): after the drop, whatever happened since, (1) at most two
+   loop steps (accept return, loop test) occur in total, (2) while the listener exists one is enabled
+   (the self-connection), (3) a schedule of at most two loop steps closes the listener and drops the pool *)
+Theorem c20_loop_exits :
+  forall (s0 s1 : Shutdown.st) (ls : list Shutdown.label) (s2 : Shutdown.st),
+    Shutdown.step s0 Shutdown.ServerDrop = Some s1 -> Shutdown.run s1 ls = Some s2 ->
+    Shutdown.nb Shutdown.is_loop_step ls <= 2 /\
+    (Shutdown.listening s2 = true ->
+       exists l s3, Shutdown.is_loop_step l = true /\ Shutdown.step s2 l = Some s3) /\
+    (exists ls' s3, length ls' <= 2 /\ Forall (fun l => Shutdown.is_loop_step l = true) ls' /\
+       Shutdown.run s2 ls' = Some s3 /\ Shutdown.listening s3 = false /\
+       (Shutdown.listening s2 = true -> Shutdown.pool_dropped s3 = true)).
+Proof. exact Shutdown.loop_exits. Qed.
+Print Assumptions c20_loop_exits.
+
+Theorem c20_path_removed :
+  forall (s0 s1 : Shutdown.st) (ls : list Shutdown.label) (s2 : Shutdown.st),
+    Shutdown.step s0 Shutdown.ServerDrop = Some s1 -> Shutdown.run s1 ls = Some s2 ->
+    Shutdown.path_removed s2 = true.
+Proof. exact Shutdown.path_removed_after_drop. Qed.
+Print Assumptions c20_path_removed.
+
+(* frame: the connections handed to the pool only grow (by what accept returns), and neither
+   Server::drop nor the loop test / loop exit changes them *)
+Theorem c20_handed_out_requests_survive :
+  (forall (ls : list Shutdown.label) (s s' : Shutdown.st), Shutdown.run s ls = Some s' ->
+     Shutdown.accepted s' = Shutdown.accepted s ++ Shutdown.handed ls) /\
+  (forall (s : Shutdown.st) (l : Shutdown.label) (s' : Shutdown.st), Shutdown.step s l = Some s' ->
+     l = Shutdown.ServerDrop \/ l = Shutdown.LoopTest -> Shutdown.accepted s' = Shutdown.accepted s).
+Proof. split; [exact Shutdown.accepted_only_grows|exact Shutdown.drop_and_exit_keep_accepted]. Qed.
+Print Assumptions c20_handed_out_requests_survive.
+
+(* reachable states of the accept loop: the pool is dropped exactly when the listener is closed, the
+   listener closes only with the flag set (then nothing is left in the backlog), the path is removed
+   exactly when the flag is set *)
+Theorem c20_shutdown_reachable :
+  forall (ls : list Shutdown.label) (s : Shutdown.st), Shutdown.run Shutdown.init ls = Some s ->
+    Shutdown.pool_dropped s = negb (Shutdown.listening s) /\
+    (Shutdown.listening s = false ->
+       Shutdown.closed s = true /\ Shutdown.backlog s = [] /\ Shutdown.in_accept s = false) /\
+    Shutdown.path_removed s = Shutdown.closed s.
+Proof. exact Shutdown.run_R. Qed.
+Print Assumptions c20_shutdown_reachable.
+
+(* non-vacuity: client 1 served; client 2 is in the backlog when the server is dropped and is the one
+   more accepted connection; client 3 connects before the loop test and is reset at the exit; client 4
+   comes later and is refused; the accepted connections 1 and 2 are untouched *)
+Example c20_example_shutdown :
+  match Shutdown.run Shutdown.init
+      [Shutdown.LoopTest; Shutdown.ClientConnect 1; Shutdown.AcceptClient 1; Shutdown.LoopTest;
+       Shutdown.ClientConnect 2; Shutdown.ServerDrop; Shutdown.AcceptClient 2; Shutdown.ClientConnect 3;
+       Shutdown.LoopTest; Shutdown.ClientConnect 4] with
+  | Some s => Shutdown.listening s = false /\ Shutdown.accepted s = [Some 1; Some 2] /\
+              Shutdown.refused s = [3; 4] /\ Shutdown.path_removed s = true /\ Shutdown.pool_dropped s = true
+  | None => False
+  end.
+Proof. vm_compute. repeat split; reflexivity. Qed.
+(* the thread is blocked in accept() with an empty backlog when the server is dropped: only the
+   self-connection wakes it; without it (no ServerDrop) no loop step is enabled *)
+Example c20_example_self_connection :
+  match Shutdown.run Shutdown.init [Shutdown.LoopTest; Shutdown.ServerDrop; Shutdown.AcceptWake; Shutdown.LoopTest] with
+  | Some s => Shutdown.listening s = false /\ Shutdown.accepted s = [None] /\ Shutdown.pool_dropped s = true
+  | None => False
+  end /\
+  match Shutdown.run Shutdown.init [Shutdown.LoopTest] with
+  | Some s => Shutdown.step s Shutdown.LoopTest = None /\ Shutdown.step s Shutdown.AcceptWake = None /\
+              forall c, Shutdown.step s (Shutdown.AcceptClient c) = None
+  | None => False
+  end.
+Proof. split; vm_compute; repeat split; reflexivity. Qed.
